@@ -24,3 +24,29 @@ Theorem C05_level_units :
   nrepeat level (rs_indent (rs_of_config crlf tabs tw ci)) ++ nrepeat 0 (rs_cont (rs_of_config crlf tabs tw ci))
   = nrepeat (level + ci * 0) (if tabs then [9] else nrepeat tw [32]).
 Proof. intros. apply indentation_units. assumption. Qed.
+
+(* the grammar model: the level of a logical line (get_context_level) is the sum of the context level deltas down to the
+   nearest context with a parent, clamped to 0..65535 *)
+From PasfmtVerif Require Import Model.ParserGrammar Proofs.ParserKernelProofs Proofs.ParserGrammarProofs Proofs.ParserGrammarRunProofs.
+Theorem C05_context_level_range :
+  forall (pass : list nat) (s : pstate pass), snd (get_context_level pass s) <= 65535.
+Proof. exact get_context_level_range. Qed.
+
+Theorem C05_context_level_exact :
+  forall (pass : list nat) (s : pstate pass),
+  (0 <= plain_sum (ps_ctx pass s) <= 65535)%Z ->
+  Z.of_N (snd (get_context_level pass s)) = plain_sum (ps_ctx pass s).
+Proof. exact get_context_level_exact. Qed.
+
+Theorem C05_context_level_parent :
+  forall (pass : list nat) (s : pstate pass),
+  fst (get_context_level pass s) = first_parent (ps_ctx pass s).
+Proof. exact get_context_level_parent. Qed.
+
+Theorem C05_context_level_clamped :
+  forall (pass : list nat) (s : pstate pass),
+  ((plain_sum (ps_ctx pass s) < 0)%Z -> snd (get_context_level pass s) = 0) /\
+  ((65535 < plain_sum (ps_ctx pass s))%Z -> snd (get_context_level pass s) = 65535).
+Proof. exact get_context_level_clamped. Qed.
+
+
